@@ -197,6 +197,36 @@ impl std::io::Write for Sink {
     }
 }
 
+/// A chunk iterator whose `size_hint` is legal but not exact: the lower bound may be anything up to the
+/// number of items left, the upper bound anything from there on or `None`. (`slice::split`, `filter`,
+/// `from_fn`, `chain` of such ... all behave like this.)
+pub struct HintIter<'a> {
+    items: std::vec::IntoIter<&'a [u8]>,
+    mode: u8,
+}
+
+impl<'a> HintIter<'a> {
+    pub fn new(ch: &[&'a [u8]], mode: u8) -> HintIter<'a> {
+        HintIter { items: ch.to_vec().into_iter(), mode }
+    }
+}
+
+impl<'a> Iterator for HintIter<'a> {
+    type Item = &'a [u8];
+    fn next(&mut self) -> Option<&'a [u8]> {
+        self.items.next()
+    }
+    fn size_hint(&self) -> (usize, Option<usize>) {
+        let rem = self.items.len();
+        match self.mode % 4 {
+            0 => (0, None),
+            1 => (rem.min(1), None),
+            2 => (rem / 2, Some(rem + 3)),
+            _ => (rem.min(1), Some(rem.max(1) * 2)),
+        }
+    }
+}
+
 type FaWriter = (&'static str, bool, Box<dyn Fn(&mut Sink, &[u8], &[u8], usize, &[&[u8]]) -> std::io::Result<()>>);
 
 fn id_desc(head: &[u8]) -> (&[u8], Option<&[u8]>) {
@@ -234,6 +264,14 @@ fn fasta_writers() -> Vec<FaWriter> {
         ("write_head+write_wrap_seq_iter", true, Box::new(|w, h, _, width, ch| {
             fasta::write_head(&mut *w, h)?;
             fasta::write_wrap_seq_iter(w, ch.iter().copied(), width)
+        })),
+        ("write_head+write_seq_iter(loose size_hint)", false, Box::new(|w, h, _, width, ch| {
+            fasta::write_head(&mut *w, h)?;
+            fasta::write_seq_iter(w, HintIter::new(ch, (width % 4) as u8))
+        })),
+        ("write_head+write_wrap_seq_iter(loose size_hint)", true, Box::new(|w, h, _, width, ch| {
+            fasta::write_head(&mut *w, h)?;
+            fasta::write_wrap_seq_iter(w, HintIter::new(ch, (width.wrapping_add(ch.len()) % 4) as u8), width)
         })),
         ("OwnedRecord::write", false, Box::new(|w, h, s, _, _| {
             fasta::OwnedRecord { head: h.to_vec(), seq: s.to_vec() }.write(w)
